@@ -1,8 +1,122 @@
-import DendroModel.Basic.Tree
-open DendroModel
+import DendroModel.Model.C06
+open DendroModel DendroModel.C06
+
+/-! line protocol of C06 (see harness/props/c06.py):
+  hist  THETA NOPS op*          -> NRES res* NREGS dump*
+  sched THETA R il ia uw  NARR arrival*  NFILES assign*  (NTREES trec*)*   -> par: res [dump]  ser: res [dump]
+ op   := new R il ia uw | add d TREC | ins d i TREC | upd d s | ext d s | iadd d s | plus a b
+ TREC := R W leafset K (split len age)*K        R in N,T,F; W,len,age exact rationals or N
+ dump := flat token stream, see `dumpTA` -/
+
+abbrev P := StateT (List String) Option
+
+def tok : P String := fun s => match s with
+  | [] => none
+  | t :: r => some (t, r)
+
+def pNat : P Nat := do let t ← tok; match t.toNat? with | some n => pure n | none => failure
+def pInt : P Int := do let t ← tok; match t.toInt? with | some n => pure n | none => failure
+def pOFrac : P (Option Frac) := do let t ← tok; match parseOLen t with | some x => pure x | none => failure
+def pFrac : P Frac := do let t ← tok; match Frac.parse t with | some x => pure x | none => failure
+def pBool : P Bool := do let t ← tok; if t == "1" then pure true else if t == "0" then pure false else failure
+def pRooting : P (Option Bool) := do
+  let t ← tok
+  if t == "N" then pure none else if t == "T" then pure (some true) else if t == "F" then pure (some false) else failure
+
+def pRep {α : Type} (p : P α) : Nat → P (List α)
+  | 0 => pure []
+  | n + 1 => do let x ← p; let xs ← pRep p n; pure (x :: xs)
+
+def pFlags : P Flags := do
+  let a ← pBool; let b ← pBool; let c ← pBool
+  pure ⟨a, b, c⟩
+
+def pEntry : P Entry := do
+  let s ← pNat; let l ← pOFrac; let a ← pOFrac
+  pure ⟨s, l, a⟩
+
+def pTRec : P TRec := do
+  let r ← pRooting; let w ← pOFrac; let ls ← pNat; let k ← pNat
+  let es ← pRep pEntry k
+  pure ⟨r, w, ls, es⟩
+
+def pOp : P Op := do
+  let t ← tok
+  match t with
+  | "new" => do let r ← pRooting; let f ← pFlags; pure (.new r f)
+  | "add" => do let d ← pNat; let t ← pTRec; pure (.add d t)
+  | "ins" => do let d ← pNat; let i ← pInt; let t ← pTRec; pure (.ins d i t)
+  | "upd" => do let d ← pNat; let s ← pNat; pure (.upd d s)
+  | "ext" => do let d ← pNat; let s ← pNat; pure (.ext d s)
+  | "iadd" => do let d ← pNat; let s ← pNat; pure (.iadd d s)
+  | "plus" => do let a ← pNat; let b ← pNat; pure (.plus a b)
+  | _ => failure
+
+def rRooting : Option Bool → String
+  | none => "N" | some true => "T" | some false => "F"
+def rBool (b : Bool) : String := if b then "1" else "0"
+def rErr : Err → String
+  | .mixedRooting => "MixedRooting" | .incRooting => "IncRooting" | .incLens => "IncLens"
+  | .incAges => "IncAges" | .incWeights => "IncWeights" | .assertion => "Assertion" | .badReg => "BadReg"
+
+def rList {α : Type} (f : α → List String) (l : List α) : List String :=
+  toString l.length :: l.flatMap f
+
+def rQs : Option (List Q) → List String
+  | none => ["-1"]
+  | some l => rList (fun q => [q.render]) l
+
+/-- flat dump of an array: settings, the four lists separately, the distribution, frequencies,
+    credibility scores, support sums, consensus split order at `theta` -/
+def dumpTA (theta : Q) (a : TA) : List String :=
+  ["A", rRooting a.rooting, rBool a.flags.ignoreLens, rBool a.flags.ignoreAges, rBool a.flags.useWeights]
+  ++ rList (fun sp => rList (fun s => [toString s]) sp) a.splits
+  ++ rList (fun el => rList (fun l => [renderOLen l]) el) a.elens
+  ++ rList (fun s => [toString s]) a.leafsets
+  ++ rList (fun w => [w.render]) a.weights
+  ++ [toString a.sd.total, a.sd.sumW.render, rBool a.sd.sawRooted, rBool a.sd.sawUnrooted]
+  ++ rList (fun kc => [toString kc.1, kc.2.render]) a.sd.counts
+  ++ rList (fun kl => toString kl.1 :: rList (fun l => [l.render]) kl.2) a.sd.lens
+  ++ rList (fun kl => toString kl.1 :: rList (fun l => [renderOLen l]) kl.2) a.sd.ages
+  ++ rList (fun kc => [toString kc.1, (a.sd.freq kc.1).render]) a.sd.counts
+  ++ rQs (scores a) ++ rQs (sums a)
+  ++ rList (fun s => [toString s]) (consensusOrder a.sd theta)
+
+def join (l : List String) : String := " ".intercalate l
+
+def pHist : P String := do
+  let theta ← pFrac
+  let n ← pNat
+  let ops ← pRep pOp n
+  let rest ← get
+  if !rest.isEmpty then failure
+  let (regs, log) := run [] ops
+  let res := log.map fun | none => "ok" | some e => rErr e
+  pure (join (toString res.length :: res ++ toString regs.length :: regs.flatMap (dumpTA (Q.ofFrac theta))))
+
+def rRun (theta : Q) : Except Err TA → List String
+  | .ok a => "ok" :: dumpTA theta a
+  | .error e => [rErr e]
+
+def pSched : P String := do
+  let theta ← pFrac
+  let r ← pRooting; let f ← pFlags
+  let na ← pNat; let arrival ← pRep pNat na
+  let nf ← pNat; let assign ← pRep pNat nf
+  let files ← pRep (do let k ← pNat; pRep pTRec k) nf
+  let rest ← get
+  if !rest.isEmpty then failure
+  pure (join (rRun (Q.ofFrac theta) (runParallel r f assign arrival files)
+              ++ rRun (Q.ofFrac theta) (runSerial r f files)))
 
 def handle (ws : List String) : String :=
   match ws with
+  | "hist" :: rest => match pHist.run rest with
+    | some (s, _) => s
+    | none => "bad-op"
+  | "sched" :: rest => match pSched.run rest with
+    | some (s, _) => s
+    | none => "bad-op"
   | _ => "bad-op"
 
 def main : IO Unit := do driverLoop (← IO.getStdin) handle
